@@ -115,7 +115,9 @@ def gen_cfg(rnd, explainer, exact):
         "names": rnd.choice(["str", "str", "int", "float"]),
         "storage": gen_storage_spec(rnd),
         "imputer": rnd.choice(["joint", "joint", "product", "default", "custom", "library-default"]),
-        "model": rnd.choice(["scalar", "scalar", "multi", "grow", "ignore", "constant", "linear"]),
+        "model": rnd.choice(["scalar", "scalar", "multi", "grow", "ignore", "constant", "linear", "positional", "positional"]),
+        "extras": rnd.choice([0, 0, 1, 2]),          # features present in the data but not explained (the model reads them)
+        "warm_start": rnd.choice([0, 0, 0, 2]),      # observations put into the storage via update_storage() before the first call
         "loss": rnd.choice(["hash", "hash", "hash", "sq", "zero"]) if exact else rnd.choice(["sq", "abs", "sq", "zero"]),
         "lbib": rnd.random() < 0.4,
         "steps": rnd.choice([6, 10, 16, 25]),
@@ -171,9 +173,14 @@ class Scenario:
             self.e = IncrementalSage(self.model, loss_fn, self.names, loss_bigger_is_better=cfg["lbib"], **kw)
         else:
             self.e = IncrementalPFI(self.model, loss_fn, self.names, **kw)
-        self.stream = UniqueStream(self.names, seed=seed, exact=cfg["exact"])
+        self.extras = [f"extra{j}" for j in range(cfg.get("extras", 0))]
+        self.stream = UniqueStream(self.names, seed=seed, exact=cfg["exact"], extras=self.extras)
         self.t = 0
         self.max_loss = 1.0
+        for _ in range(cfg.get("warm_start", 0)):
+            xw, yw = self.stream.next()
+            self.e.update_storage(xw, yw)
+        self.clock.reset()
 
     def next_obs(self):
         return self.stream.next()
@@ -204,7 +211,7 @@ class Scenario:
         if hasattr(e, "marginal_loss"):
             snap.update(marginal_loss=e.marginal_loss, model_loss=e.model_loss,
                         marginal_prediction=dict(e.marginal_prediction))
-        return snap
+        return copy.deepcopy(snap)      # values may be mutable (NumPy arrays): a snapshot must not alias live state
 
 
 def ref_alpha(cfg):
